@@ -1625,6 +1625,7 @@ package tree
 //@   requires n != nil && len(n.neigh) == len(n.br) && arr(n.neigh) != 0
 //@   assigns elems(n.neigh), elems(n.br), ghost(rand_count), ghost(rand_last), ghost(rand_range)
 //@   call math/rand.Intn [fisher_yates_draw_among_the_first_i_plus_one_slots] a0 == rangeindex + 2
+//@   return [the_shuffle_runs_whatever_the_number_of_neighbours] ghost(entered_L1) == old(ghost(entered_L1)) + 1
 //@   ensures [every_slot_holds_an_original_pair] forall k int :: {n.neigh[k]} {n.br[k]} 0 <= k && k < len(n.neigh) ==> (exists m int :: {old(n.neigh[m])} 0 <= m && m < len(n.neigh) && n.neigh[k] == old(n.neigh[m]) && n.br[k] == old(n.br[m]))
 //@   loop 1
 //@     complete [all_iterations_no_early_exit]
@@ -1816,6 +1817,7 @@ package tree
 //@   call (*tree.Tree).ConnectNodes@L0 [the_new_node_hangs_on_n_oriented_away_from_it_unless_a_moved_branch_pointed_into_it] (nbin == 0 && a1 == n && a2 == n2) || (nbin != 0 && a1 == n2 && a2 == n)
 //@   call (*tree.Edge).SetLength@L0 [the_new_branch_gets_the_given_length] a0 == e && a1 == length
 //@   call (*tree.Edge).SetSupport@L0 [the_new_branch_gets_the_given_support] a0 == e && a1 == support
+//@   return [on_success_the_new_branch_was_given_its_length_and_its_support_whatever_their_values] result1 == nil ==> ghost(ncalls_SetLength) == atexit(1, ghost(ncalls_SetLength)) + 1 && ghost(ncalls_SetSupport) == atexit(1, ghost(ncalls_SetSupport)) + 1
 //@   loop 1
 //@     complete [all_iterations_no_early_exit]
 //@     invariant [incoming_moved_branches_counted] nbin >= 0 && nbout >= 0 && n2 != nil
